@@ -55,9 +55,13 @@ def run_case(case):
         _copy_repo(tmp)
         if not apply_edit(tmp, case):
             return dict(id=case["id"], status="skipped")
+        env = dict(os.environ)
+        if case.get("_child_jobs"):
+            # the checks of C01/C02 are process pools themselves: share the cores between the concurrent cases
+            env["VERIF_JOBS"] = str(case["_child_jobs"])
         p = subprocess.run(
             [os.path.join(VERIF, "check"), case["prop"], "--tier", "quick", "--repo", tmp],
-            stdout=subprocess.PIPE, stderr=subprocess.STDOUT, text=True, cwd=VERIF, timeout=900,
+            stdout=subprocess.PIPE, stderr=subprocess.STDOUT, text=True, cwd=VERIF, timeout=3600, env=env,
         )
         rules = set(re.findall(r"VIOLATED (R[\d.]+)", p.stdout))
         return dict(id=case["id"], status="ran", rc=p.returncode, rules=sorted(rules), tail=p.stdout[-600:])
@@ -75,7 +79,11 @@ def run_for_property(prop, jobs=16, verbose=True):
                neutral_edits_total=0, neutral_edits_silent=0, neutral_edits_alarmed=0, selftest_failures=[])
     if not cases:
         return out
-    with cf.ThreadPoolExecutor(max_workers=jobs) as ex:
+    workers = max(1, min(jobs, len(cases)))
+    ncpu = os.cpu_count() or 1
+    for c in cases:
+        c["_child_jobs"] = max(1, -(-ncpu // workers))
+    with cf.ThreadPoolExecutor(max_workers=workers) as ex:
         results = list(ex.map(run_case, cases))
     for c, res in zip(cases, results):
         kind = c.get("kind", "mutant")
